@@ -318,9 +318,14 @@ func (p *Parser) parseStatement() ast.Node {
 	case token.VAR:
 		stmt = p.parseVar()
 	case token.CONST:
-		stmt = p.parseConst()
+		// avoid storing a typed nil pointer in the interface value
+		if s := p.parseConst(); s != nil {
+			stmt = s
+		}
 	case token.RETURN:
-		stmt = p.parseReturn()
+		if s := p.parseReturn(); s != nil {
+			stmt = s
+		}
 	case token.BREAK:
 		stmt = p.parseBreak()
 	case token.CONTINUE:
